@@ -186,7 +186,8 @@ class C04(Plan):
                 lambda c, N, sz: fam_drain(c, N, sz, scripts_shapes),
                 lambda c, N, sz: ["hash", "debug", "clone_keep", "eq_slice slice " + c.es(sz, default_vals(sz)),
                                   "iter_mut " + ",".join("n" * (sz + 1)), "make_contiguous -",
-                                  "as_mut_slices -", "into_iter n,b"]]
+                                  "as_mut_slices -", "into_iter n,b"],
+                fam_debug_views, fam_more_iters]
         for fam in fams:
             g.one_step(ns, JUNKS, fam)
         # histories from a genuinely fresh buffer and from rotated copies
@@ -231,7 +232,8 @@ def E_erase(r):
 # ---------------------------------------------------------------- C05 / C06
 
 def fam_destroying(c, N, sz):
-    out = ["clear", "new", "fill " + c.e(), "fill_with", "clone_keep", "into_iter n", "into_iter -",
+    out = ["clear", "new", "default", "boxed", "drain_debug u u n", "into_iter_debug n",
+           "fill " + c.e(), "fill_with", "clone_keep", "into_iter n", "into_iter -",
            "drain u u - drop", "drain u u n drop", "drain i1 u b drop", "drain u e1 - drop"]
     for k in sorted({0, 1, max(sz - 1, 0)}):
         out += ["truncate_back %d" % k, "truncate_front %d" % k]
@@ -299,7 +301,7 @@ def fam_usercode(kind):
             return out
         if kind == "hash":
             return ["hash"]
-        return ["debug"]
+        return ["debug"] + [o for o in fam_debug_views(c, N, sz) if o.split(" ")[-1] in ("-", "n,b")]
     return f
 
 
@@ -368,6 +370,7 @@ class C08(Plan):
                                     ["iter_mut " + s for s in scripts_exhaustive(sz, 2)] +
                                     ["into_iter " + s for s in scripts_exhaustive(sz, 2)] +
                                     ["iter n,c,n,b", "iter c", "iter b,c,l", "iter " + ",".join("n" * sz + "c")])
+        g.one_step(Ns(tier, [0, 1, 2, 3, 4], [0, 1, 2, 3, 4, 5]), [3], fam_more_iters)
         return g.cases
 
 
@@ -440,6 +443,7 @@ def fam_everything(c, N, sz):
         out += fam(c, N, sz)
     out += fam_drain_forms(c, N, sz) + fam_iter_forms(c, N, sz)
     out += ["hash", "debug", "to_vec", "clone_keep"]
+    out += fam_more_iters(c, N, sz) + fam_debug_views(c, N, sz, with_invalid=True)
     return out
 
 
@@ -521,6 +525,8 @@ class C13(Plan):
                         for form in ("slice", "array", "slice_ref", "slice_mut", "array_ref", "array_mut"):
                             if form == "slice" or list(xs) == vals or k == len(vals):
                                 c.ops.append("eq_slice %s %s" % (form, c.es(k, list(xs))))
+        # Debug of the iterators and of a Drain: the elements still to come
+        g.one_step(range(0, top + 1), [3, 4], fam_debug_views, suffix=("new",))
         return g.cases
 
     def oracle_groups(self, cases, parsed):
@@ -650,7 +656,7 @@ class C18(Plan):
         g = Gen(seed)
         ns = Ns(tier, [0, 1, 2, 3], [0, 1, 2, 3, 4])
         for fam in (fam_push, fam_pop, fam_index1, fam_swap, fam_bulk, fam_accessors, fam_mut_views, fam_constructors,
-                    fam_drain_forms, fam_iter_forms):
+                    fam_drain_forms, fam_iter_forms, fam_more_iters, fam_debug_views):
             g.one_step(ns, [3], fam)
         g.one_step(ns, [3], lambda c, N, sz: fam_drain(c, N, sz, sc_for(tier, 2)))
         g.one_step(ns, [3], lambda c, N, sz: fam_iters(c, N, sz, sc_for(tier, 2)))
@@ -838,6 +844,8 @@ class C17(Plan):
             return None      # unwinding allocates the panic payload; the property is about returning calls
         a = int(i.get("a", "0"))
         name = optext.split(" ")[0]
+        if name == "boxed":
+            return None if a == 1 else "boxed() performed %d heap allocations (exactly one expected)" % a
         if name == "to_vec":
             n = len([x for x in (p["ops"].get(k - 1, {}).get("i") if k > 0 else p["init"].get("impl") or {}).get("c", "-").split(",") if x != "-"])
             if a > (1 if n > 0 else 0):
